@@ -124,8 +124,11 @@ func (e *Exec) openAndDrain(ctx context.Context, sub, real string, fcb int) (s *
 		}
 		return nil, false, e.emitPull(sub, real, 1000, nil, oerr, t0, e.W.NowTU())
 	}
-	// from here on the sender's fetches are parked
+	// from here on the sender's fetches are parked; a fetch that had already begun (it refreshes the
+	// subscription's expiry in a transaction of its own) gets the time to finish before the state
+	// is read and the event's interval is closed
 	s.h.set(true)
+	time.Sleep(50 * time.Millisecond)
 	return s, true, e.emitPull(sub, real, 1000, &pubsubpb.PullResponse{ReceivedMessages: got}, nil, t0, e.W.NowTU())
 }
 
